@@ -10,6 +10,18 @@ BASELINE = ("cd /repo && /venv/bin/python -m pytest -ra -q -p no:cacheprovider -
 
 # id -> (category, technique, level text, level note, design ref)
 CHECKS = {
+    "C12": ("exploration",
+            "Hypothesis-generated documents with links/includes added by construction, finalize/clean/save-load "
+            "histories; independent path arithmetic and resolver, snapshot restoration law, saved file inspected "
+            "with xml.etree",
+            "1-3 (linking Section, target) pairs meeting the stated side conditions are constructed at drawn "
+            "positions with absolute paths, relative paths and file-URL includes; after finalize the copies, the "
+            "untouched target and the untouched rest of the document are checked, after clean the restoration "
+            "law, the stored reference (harness resolver) and the saved file; cycles and a save/load continue "
+            "the history on the re-loaded document. Sampling only.",
+            "Same-named children of linking Section and target are mergeable (same type / dtype); includes via "
+            "file: URLs.",
+            "DESIGN.md section 5, C12"),
     "C11": ("exploration",
             "Hypothesis-generated documents x every node as copy root x flags, two-phase (copy, then edit one "
             "side) with equality, identity-walk and unchanged-snapshot oracles",
